@@ -36,7 +36,9 @@ class CaseOutcome:
 def _worker_main(conn, run_fn, indices, chunk):
     # child
     try:
-        faulthandler.enable(all_threads=False)
+        # a crashing case is attributed by the parent; keep the child's own dump out of the check's output
+        _fh = open(os.environ.get("VERIF_FAULT_LOG", os.devnull), "a")
+        faulthandler.enable(file=_fh, all_threads=False)
     except Exception:
         pass
     try:
@@ -72,7 +74,7 @@ class _Worker:
 
 
 def run_indexed(run_fn, n_cases, jobs=None, case_timeout=20.0, confirm_factor=10.0, progress=None,
-                indices=None, stop_when=None):
+                indices=None, stop_when=None, confirm=True):
     """Run run_fn(i) for i in range(n_cases) (or the given indices) over `jobs` forked workers.
 
     Returns list of CaseOutcome sorted by index.  stop_when(outcome) -> True aborts early (remaining cases are
@@ -167,6 +169,9 @@ def run_indexed(run_fn, n_cases, jobs=None, case_timeout=20.0, confirm_factor=10
                 pass
     # confirm suspects alone with a larger cap
     for idx in suspects:
+        if not confirm:
+            outcomes[idx] = CaseOutcome(idx, "hang", None, f"no return within {case_timeout:.0f}s")
+            continue
         o = run_isolated(run_fn, idx, timeout=case_timeout * confirm_factor)
         if o.status == "hang":
             outcomes[idx] = o
